@@ -48,6 +48,11 @@ def coverage_from(out, stats, spec, rule, extra=None):
         "outcomes": dict(out.outcomes),
         "notes": dict(out.notes),
     }
+    applied = getattr(out, "applied", None)
+    if applied is not None and stats.get("states", 0) > 1:
+        # vacuity audit: a letter of the alphabet that was never applied successfully contributes nothing
+        cov["letters_never_applied"] = [repr(o) for i, o in enumerate(spec.alphabet) if not applied.get(i)]
+        cov["least_applied_letters"] = [[repr(spec.alphabet[i]), n] for i, n in sorted(applied.items(), key=lambda kv: kv[1])[:3]]
     if extra:
         cov.update(extra)
     return cov
